@@ -256,6 +256,87 @@ def hostkeys_tail(p, a):
              server_host_keys_handler=handler), sess=sess)
 
 
+def reply_replaced(request_kind, instead):
+    """A client whose want-reply channel request is answered with something
+    else by a hostile server: `instead` in ('close', 'eof_close', 'nothing',
+    'open_failure', 'two_replies', 'disconnect').  The waiting call must
+    complete or fail, nothing may reach the loop's exception handler, and
+    when the connection is closed afterwards its owner is told exactly once
+    and wait_closed() returns."""
+    st = {}
+
+    def on_request(conn, t, payload):
+        if t == 5:
+            conn.raw_send(6, String(b'ssh-userauth'))
+        elif t == 50:
+            conn.raw_send(52, b'')
+        elif t == 90:
+            st['c'] = int.from_bytes(payload[12:16], 'big')
+            conn.raw_send(91, UInt32(st['c']) + UInt32(3) + UInt32(1 << 20)
+                          + UInt32(1 << 15))
+        elif t == 98:
+            c = st['c']
+            n = st['n'] = st.get('n', 0) + 1
+            # the request under test is the first one that wants a reply
+            ln = int.from_bytes(payload[5:9], 'big')
+            wants = payload[9 + ln] != 0
+            if not wants:
+                return
+            if st.get('done'):
+                conn.raw_send(99, UInt32(c))
+                return
+            st['done'] = True
+            if instead == 'close':
+                conn.raw_send(97, UInt32(c))
+            elif instead == 'eof_close':
+                conn.raw_send(96, UInt32(c))
+                conn.raw_send(97, UInt32(c))
+            elif instead == 'open_failure':
+                conn.raw_send(92, UInt32(c) + UInt32(1) + String(b'no') +
+                              String(b''))
+            elif instead == 'two_replies':
+                conn.raw_send(99, UInt32(c))
+                conn.raw_send(100, UInt32(c))
+            elif instead == 'disconnect':
+                conn.raw_send(1, UInt32(11) + String(b'bye') + String(b''))
+            # 'nothing': the reply never comes; the connection is closed
+            # by the client below
+
+    async def sess(conn):
+        kw = {}
+        if request_kind == 'exec':
+            kw = dict(command='x')
+        elif request_kind == 'subsystem':
+            kw = dict(subsystem='sftp')
+        elif request_kind == 'pty':
+            kw = dict(command='x', term_type='vt100')
+        elif request_kind == 'env':
+            kw = dict(command='x', env={'A': 'b'})
+        elif request_kind == 'x11':
+            kw = dict(command='x', x11_forwarding='ignore_failure',
+                      x11_display='127.0.0.1:0')
+        task = asyncio.ensure_future(conn.create_session(
+            asyncssh.SSHClientSession, encoding=None, **kw))
+        await asyncio.sleep(0.3)
+        if instead == 'nothing' and not task.done():
+            conn.close()
+        try:
+            await asyncio.wait_for(task, 2)
+            out = 'opened'
+        except asyncio.TimeoutError:
+            return 'hang', 'create_session() still pending'
+        except (asyncssh.Error, OSError) as exc:
+            out = f'{type(exc).__name__}'
+        conn.close()
+        try:
+            await asyncio.wait_for(conn.wait_closed(), 2)
+        except asyncio.TimeoutError:
+            return 'hang', f'conn.wait_closed() still pending ({out})'
+        return 'ok', out
+
+    return _client_vs_raw_server(on_request, {}, sess=sess)
+
+
 def _server_vs_raw_client(script, server_kw=None, server_cls=None):
     loop = new_loop()
     loop.max_iterations = 200000
